@@ -1,4 +1,6 @@
 #!/bin/bash
+# BASE=<commit> evaluates against that commit of /repo instead of HEAD (for
+# changes written before a later repair touched the same lines).
 # seeded_verify.sh <id> <name> <outdir> <demo-file> <demo-pkg-dir> <module-dir> <test-run-regex>
 # Confirms a seeded change in a scratch worktree: demonstration passes on the
 # unchanged tree, fails with the change, and the affected module's existing
@@ -8,7 +10,7 @@ set -u
 ID="$1"; NAME="$2"; OUT="$3"; DEMO="$4"; PKG="$5"; MOD="$6"; RUN="$7"
 export GOFLAGS=-mod=mod GOPROXY=off GOSUMDB=off
 WT=/tmp/me/seedverify-$NAME
-rm -rf "$WT"; git -C /repo worktree add --detach "$WT" HEAD >/dev/null 2>&1 || exit 2
+rm -rf "$WT"; git -C /repo worktree add --detach "$WT" ${BASE:-HEAD} >/dev/null 2>&1 || exit 2
 cp "$OUT/$DEMO" "$WT/$PKG/$DEMO"
 ( cd "$WT/$PKG" && go test -count=1 -run "$RUN" . ) > /tmp/me/sv-clean.log 2>&1; A=$?
 ( cd "$WT" && git apply "$OUT/patch.diff" ) || { echo "patch does not apply"; git -C /repo worktree remove --force "$WT"; exit 2; }
@@ -39,6 +41,8 @@ meta={"property":i,"name":name,"demonstration":{"file":demo,"place_in":pkg,"run"
  "existing_tests_pass_with_change":{"module":mod,"cmd":"go test -count=1 ./...","ok":c=="0"},
  "check":{"cmd":"./check %s quick"%i,"exit":int(d),"caught":d=="1","signatures":sigs.split()},
  "needs_to_manifest":"see notes.md"}
+import os
+if os.environ.get("BASE"): meta["base_commit"]=os.environ["BASE"]
 json.dump(meta,open('/verif/seeded/%s/meta.json'%name,'w'),indent=1)
 print(json.dumps(meta["check"]))
 PY
